@@ -20,7 +20,7 @@ PostS(e) ==
     LET w == IF e.op = "clone" THEN e.o2 ELSE e.o IN
     ObsStr(strs'[w], mode'[w], e.post)
 
-KnownIds == {"C10-KF4", "C10-KF5", "C10-KF6"}
+KnownIds == {"C10-KF4", "C10-KF5", "C10-KF6", "C10-KF7"}
 
 MinOf(S) == CHOOSE i \in S : \A j \in S : i <= j
 
@@ -95,11 +95,30 @@ KF6(e, subj) ==
                /\ \A i \in 1..Len(c) : Count(c, c[i]) = Cardinality({ j \in 1..Len(inp) : CutNul(inp[j]) = c[i] })
        /\ strs' = WithS(e.o, c) /\ mode' = WithM(e.o, "none")
 
+(* C10-KF7: SortableStrVec packs the length of a string into 20 bits without checking it:        *)
+(* push_str of a string of 2^20 bytes or more succeeds, but the entry keeps length mod 2^20 (and   *)
+(* the overflow spills into the sequence-id bits), so get() returns a truncated string.  Seen in   *)
+(* the runs of profile "big", where strings are shown as digests [len, h].  The deviation records  *)
+(* the truncated string the vector reports (its length must be the original length mod 2^20).      *)
+G7(e, subj) ==
+    /\ subj.fam = "sortable" /\ subj.profile = "big"
+    /\ e.op = "push" /\ e.ok /\ e.has_r /\ e.r = Len(strs[e.o])
+    /\ e.s.len >= 1048576
+KF7(e, subj) ==
+    /\ G7(e, subj)
+    /\ e.post.len = e.r + 1
+    /\ LET w == e.post.c[e.r + 1] IN
+       /\ w.len = e.s.len % 1048576
+       /\ strs' = WithS(e.o, Append(strs[e.o], w)) /\ mode' = WithM(e.o, "none")
+    /\ ObsStr(strs'[e.o], mode'[e.o], e.post)
+
 DevApplies(id, e, subj) ==
+    \/ id = "C10-KF7" /\ G7(e, subj)
     \/ id = "C10-KF4" /\ G4(e, subj)
     \/ id = "C10-KF5" /\ G5(e, subj)
     \/ id = "C10-KF6" /\ G6(e, subj)
 KnownDeviation(id, e, subj) ==
+    \/ id = "C10-KF7" /\ KF7(e, subj)
     \/ id = "C10-KF4" /\ KF4(e, subj)
     \/ id = "C10-KF5" /\ KF5(e, subj)
     \/ id = "C10-KF6" /\ KF6(e, subj)
